@@ -35,7 +35,7 @@ OBLIGATIONS = {"dscore:m=1": 20, "dscore:m>=2": 50, "dscore:perfect": 20,
                "dscore:identical-ens": 10, "dscore:wide-range": 20, "dscore:fine-lattice": 10, "eps:non-default": 20, "eps:below-small-gaps": 20,
                "dscore:constant-members": 5, "dscore:definition": 50, "pit:long-series": 4,
                "ad:extreme-values": 3, "ad:near-duplicates": 10, "ad:reject:several-outside": 10, "ensrank:ref": 50, "pit:random": 30,
-               "pit:plain": 30, "pit:sudo": 30, "cvm": 50, "ad": 50, "ad:reject": 30,
+               "pit:plain": 30, "pit:sudo": 30, "pit:values-a-hair-above-the-threshold": 10, "cvm": 50, "ad": 50, "ad:reject": 30,
                "alpha": 20, "n=1-sample": 5, "dscore:huge-ensemble": 3}
 
 
@@ -60,6 +60,12 @@ MAPS = {
     "shift36": lambda x: x + 2.0 ** 36,
     "negshift40": lambda x: x - 2.0 ** 37,
     "scale34": lambda x: x * 2.0 ** 34,
+    # ... and to units in which adding 1 to a value changes nothing
+    "scale60": lambda x: x * 2.0 ** 60,
+    "scale900": lambda x: x * 2.0 ** 900,
+    # ... up to the last decades of the double range (values times the tolerance are still
+    # doubles, values divided by it are not)
+    "scale1010": lambda x: x * (2.0 ** 1010 if np.max(np.abs(x)) < 1e4 else 2.0 ** 900),
 }
 
 
@@ -175,9 +181,10 @@ def gen_forecasts(rng, it, tier):
         case["eps"] = [1e-6, 1e-9, 1e-3, 0.05, 0.2][(it // 3) % 5]
     if usewide:
         case["maps"] = ["arctan", "cubic", "affine", "affine2", "shift36", "negshift40",
-                        "scale34"]   # exp would overflow
+                        "scale34", "scale60", "scale900", "scale1010"]   # exp would overflow
     if "dscore:fine-lattice" in tags:
-        case["maps"] = ["affine", "affine2", "shift36", "negshift40", "scale34"]
+        case["maps"] = ["affine", "affine2", "shift36", "negshift40", "scale34", "scale60",
+                        "scale900", "scale1010"]
         # (the others merge neighbours)
     return case
 
@@ -358,7 +365,8 @@ def run_pit_case(ctx, case):
               "pit|sudo-flag", case, lambda: {"flag": np.asarray(sudo).tolist(),
                                               "want": want.tolist()})
     ctx.nontrivial("pit", obs, ens, rnd, cst, censor)
-    if not rnd:
+    if not rnd and not case.get("hair"):
+        # (values 1e-10 above the threshold do not survive a shift by millions: skipped)
         # the same forecasts in units where the threshold is a large number (volumes in
         # ML, levels above a far datum): everything shifted by the same exact amount -
         # same PIT values, same flags
@@ -551,7 +559,21 @@ def run(ctx):
             if it % 12 == 4:
                 obs[int(rng.integers(0, n))] = big * 2
             censor = 0.0
-        run_pit_case(ctx, {"kind": "pit", "obs": obs, "ens": ens,
+        if it % 6 in (1, 2):
+            # observations, or lowest members, a hair (1.5e-10 .. 1.9e-10, beyond the 1e-10
+            # allowance of the threshold test) above the censoring threshold: not flagged
+            for i_ in range(0, n, 2):
+                d_ = float(rng.choice([1.5e-10, 1.9e-10, 1.2e-10]))
+                if i_ % 4 == 0:
+                    obs[i_] = censor + d_
+                    ens[i_] = np.where(np.abs(ens[i_] - censor) < 0.3, censor + 0.5, ens[i_])
+                    ens[i_, 0] = censor - 0.5
+                else:
+                    obs[i_] = censor - 1.0
+                    ens[i_] = np.where(ens[i_] <= censor + 0.3, censor + 0.5, ens[i_])
+                    ens[i_, 0] = censor + d_
+            ctx.tag("pit:values-a-hair-above-the-threshold")
+        run_pit_case(ctx, {"kind": "pit", "obs": obs, "ens": ens, "hair": it % 6 in (1, 2),
                            "random": bool(it % 2), "cst": float(rng.uniform(0, 0.5))
                            if it % 5 else [0.0, 0.5][it % 2],
                            "censor": censor, "npseed": int(rng.integers(0, 2 ** 31)),
